@@ -297,7 +297,13 @@ func TestC20Chain(t *testing.T) {
 				}
 				return
 			}
-			cs, err := cc.NewStream(context.Background(), descBidi, "/verif.Echo/Bidi")
+			sm := []struct {
+				d *grpc.StreamDesc
+				p string
+			}{{descBidi, "/verif.Echo/Bidi"}, {descCStream, "/verif.Echo/CStream"}, {descSStream, "/verif.Echo/SStream"}}[idx%3]
+			stExpectMethod = sm.p // every interceptor must be shown the method that was called
+			defer func() { stExpectMethod = "" }()
+			cs, err := cc.NewStream(context.Background(), sm.d, sm.p)
 			if err != nil {
 				ecode = errCode(err)
 				return
